@@ -1248,3 +1248,22 @@ def replay(ctx, case):
     if not _run_one(sub, case, [], []):
         return None
     return sub.failures[:3] or None
+
+
+def shrink(ctx, failure):
+    """Among the failures of this run at the same site pick the smallest case (exact numbers before oblique ones,
+    then product of the shape, then number of request items): cases are pure functions of (seed, stream, idx), so the
+    smallest failing generated case is the minimised replay."""
+    site = failure.get('site')
+
+    def size(f):
+        c = f.get('case') or {}
+        if 'helper' in c:
+            return (0, c.get('n', 0), abs(c.get('start') or 0) + abs(c.get('end') or 0))
+        dims = c.get('shape') or c.get('total') or [c.get('n', 1), c.get('rows', 1), c.get('cols', 1)]
+        vol = 1
+        for d in dims:
+            vol *= max(1, int(d))
+        return (0 if c.get('exact', True) else 1, vol, len(c.get('request') or {}))
+    cands = [f for f in ctx.failures if f.get('site') == site]
+    return min(cands, key=size) if cands else failure
